@@ -14,7 +14,7 @@ ASSUME = c02.ASSUME[:4] + [
     "ASAP bound recomputed from observed predecessor dates; ALAP deadline = own/inherited end, else earliest successor start minus gap, else observed project end",
 ]
 
-PATTERNS = ["one20", "one90", "one600", "chain", "indep", "fork", "prio", "team"]
+PATTERNS = ["one20", "one90", "one600", "chain", "indep", "fork", "prio", "team", "gapchain"]
 
 
 def universe(tier):
@@ -25,13 +25,13 @@ def universe(tier):
             for z in zones:
                 for L in Ls:
                     for pat in PATTERNS:
-                        for mode in ("asap", "palap", "talap"):
+                        for mode in ("asap", "palap", "talap", "talap-mid"):
                             for eff in ((1.0,) if tier == "quick" and pat not in ("one90", "chain") else (1.0, 0.7)):
                                 yield {"hk": hk, "days": days, "z": z, "L": L, "pat": pat, "mode": mode, "eff": eff}
     # default calendar + leaves
     for lv in c02.LEAVES:
         for pat in PATTERNS:
-            for mode in ("asap", "palap", "talap"):
+            for mode in ("asap", "palap", "talap", "talap-mid"):
                 yield {"hk": None, "days": None, "z": None, "L": 60, "pat": pat, "mode": mode, "eff": 1.0, "lv": lv}
 
 
@@ -69,15 +69,18 @@ def to_spec(it):
         tasks = [T("a", 90), T("b", 60, deps=["a"]), T("c", 150, deps=["a"])]
     elif pat == "prio":
         tasks = [T("a", 150, prio=300), T("b", 90, prio=700), T("c", 20, prio=500)]
+    elif pat == "gapchain":
+        # successor on another resource, gap that is not a multiple of the slot: the predecessor's deadline falls inside a slot
+        tasks = [T("a", 150), {"id": "b", "effort": 90, "alloc": ["r2"], "deps": [{"ref": "a", "gap": "90min" if L == 60 else "50min"}]}]
     else:
         tasks = [T("a", 40), {"id": "b", "effort": 150, "alloc": ["r1", "r2"]}, T("c", 90, deps=["b"])]
-    if it["mode"] == "talap":
+    if it["mode"] in ("talap", "talap-mid"):
         # task-level ALAP anchored by explicit ends on the sinks
         referenced = {d if isinstance(d, str) else d["ref"] for t in tasks for d in t.get("deps", [])}
         for t in tasks:
             t["sched"] = "alap"
             if t["id"] not in referenced:
-                t["end"] = c02._day(start, 11, "-12:00")
+                t["end"] = c02._day(start, 11, "-12:00" if it["mode"] == "talap" else ("-15:30" if L == 60 else "-15:20"))
     spec["resources"] = [r1, r2]
     spec["tasks"] = tasks
     return spec
@@ -113,8 +116,8 @@ def run(ctx):
     explore(ctx, universe(ctx.tier), "mc.props.c08:evaluate", st, payload=payload, sample_of=sample, timeout=120)
     common.vacuity_guard(ctx, st)
     cov = st.coverage(
-        "product universe: (6 hour sets x 6 day lists x zones x resolutions) + default calendar with 9 leave layouts, x 8 task patterns "
-        "(single sub-slot / multi-day tasks, chains, forks, priorities, a team) x {ASAP, project ALAP, task ALAP with explicit ends} x "
+        "product universe: (6 hour sets x 6 day lists x zones x resolutions) + default calendar with 9 leave layouts, x 9 task patterns "
+        "(single sub-slot / multi-day tasks, chains, forks, priorities, a team) x {ASAP, project ALAP, task ALAP with explicit slot-aligned ends, task ALAP with ends inside a slot} x "
         "efficiency; states = distinct schedule observations; transitions = placements + bookings; non-trivial = some judged task has "
         ">= 2 slots between its bound (deadline) and its last (first) booked slot")
     return ctx.finish(cov, ASSUME)
